@@ -149,9 +149,9 @@ def r11_2(ctx):
     for cls, mangled, fsrc, filler in cache.find_lazy_caches(ctx):
         stores = [n for n in ast.walk(filler.node) if cache._stores_field(n, filler.params[0], fsrc)
                   and not (isinstance(n, ast.Assign) and isinstance(n.value, ast.Constant) and n.value.value is None)]
-        aug = [n for n in stores if isinstance(n, ast.AugAssign)]
-        if aug or len(stores) != 1:
-            out.bad(filler.qname, f"cache {fsrc} is filled incrementally ({len(stores)} stores): an exception in "
+        per_path = cache.max_fill_stores(filler.node.body, filler.params[0], fsrc)
+        if per_path != 1:
+            out.bad(filler.qname, f"cache {fsrc} is filled incrementally ({per_path} stores on one path): an exception in "
                                   f"between leaves a partial value that later queries trust", where=filler.where())
         else:
             out.ok(filler.qname, f"cache {fsrc} filled by one store of a fully computed value", where=filler.where(stores[0]))
